@@ -54,6 +54,14 @@ P = {
    text="Decided: all shared client state under client.lock with write mode for writes (interprocedural lockset incl. the helpers documented as needing the lock); metadata changes always paired with the derived-list change in the same function; per-error-class effect table of updateMetadata extracted from the switch CFG; sorted lists and exactly-the-leaderless skip; cachedLeader's guards; broker reconciliation; candidate loops set the failed broker aside and resurrect seeds before retrying; read paths refresh once on a miss.",
    note="Folding of arbitrary response sequences and what concurrent readers observe beyond the lock discipline are not decided.",
    technique="interprocedural must-lockset analysis + SSA path/guard rules + case→effect table extraction"),
+ "C12": dict(claimed=True,
+   text="Structural necessary conditions of clean shutdown decided on the current source: WaitGroup Add/Done pairing of fan-out helpers (the pipeline groups via the shared C01/C03/C07 rules); a frozen per-field table of close() sites with once/defer attributes (a second closer, or a closer outside its sync.Once, is reported); close/wait hand-shakes of client, broker, offset manager, heartbeat, partition consumer, subscription manager; every blocking select / bare timer wait of the long-running loops watches the component's shutdown channel; tabled senders for channels closed by their only sender.",
+   note="Absence of deadlock in general and send/close races needing a happens-before argument (consumerGroup.errors, partitionConsumer.errors/trigger) are not covered. The close-site table is a frozen semantic table keyed by field, not by position.",
+   technique="SSA path queries (must-precede/must-follow), who-may-close/send tables, select-state inspection"),
+ "C19": dict(claimed=True,
+   text="Decided: retryOnError attempts before returning; controller-bound closures look the controller up on each attempt, refresh it on NOT_CONTROLLER and return an error type the retry predicate recognises; nil only for a present item with ErrNoError (also for the collect-errors idiom); routing table of the leader/coordinator/controller-bound operations by provenance of the *Broker receiver (through local maps keyed by broker); every constant request version stored anywhere is guarded by a configured-version test implying the type's own requiredVersion() (tables evaluated statically). One known finding (F15).",
+   note="How many controller moves happen versus Retry.Max, and the brokers' verdicts, are run-time facts not covered.",
+   technique="SSA provenance classification, must-precede queries, static evaluation of requiredVersion() switch tables against IsAtLeast guards"),
  "C01": dict(claimed=True,
    text="Structural necessary conditions of exactly-one-outcome decided on every CFG path of the producer pipeline (emit/Done pairing, no partially disposed batch, marker accounting, exactly-once routing of every partition set, retry budget guards, Wait-before-close, sync-producer expectation protocol). It is not a proof of the behaviour: cross-goroutine liveness of the retry loop is not covered.",
    note="Trusts go/ssa's model of the source; disposer functions are computed as a fixed point from the source, channel/field anchors are named in rules_c01.go.",
